@@ -8,7 +8,7 @@ use std::sync::OnceLock;
 pub fn def() -> PropDef {
     PropDef {
         id: "C12",
-        level: "bounded_model_checking",
+        level: "model_checking",
         n_jobs,
         job_level,
         run_job,
